@@ -614,6 +614,9 @@ pub enum ApiOp {
     Drop(u8),
     /// `Vec<SharedString>::clone_from` over all live handles in reverse order
     VecCloneFrom,
+    /// a worker thread takes over `k` of the live handles (and makes two of its own) and panics:
+    /// they are dropped while that thread unwinds
+    DropWhileUnwinding(u8),
 }
 
 #[derive(Clone, Debug, Serialize, Deserialize)]
@@ -630,6 +633,7 @@ fn api_body(case: &ApiCase, ctx: &mut CaseCtx) -> PropResult {
     let mut live: Vec<(SharedString, usize)> = Vec::new();
     let pick = |sel: u8, len: usize| if len == 0 { None } else { Some(sel as usize % len) };
     let mut used_clone_from = false;
+    let mut unwound = false;
     let res = crate::engine::catch(|| -> Result<(), Fail> {
         for op in &case.ops {
             match op {
@@ -663,6 +667,19 @@ fn api_body(case: &ApiCase, ctx: &mut CaseCtx) -> PropResult {
                         live.swap_remove(i);
                     }
                 }
+                ApiOp::DropWhileUnwinding(k) => {
+                    let take = (*k as usize % 4).min(live.len());
+                    let moved: Vec<SharedString> = live.drain(live.len() - take..).map(|(h, _)| h).collect();
+                    let extra = content(4);
+                    let res = std::thread::spawn(move || {
+                        let _mine = (SharedString::new(extra.clone()), SharedString::new(extra));
+                        let _moved = moved;
+                        crate::engine::quiet_panic("unwinding with SharedString handles alive");
+                    })
+                    .join();
+                    ensure!(res.is_err(), "harness:c18", "worker did not panic");
+                    unwound = true;
+                }
                 ApiOp::VecCloneFrom => {
                     if live.len() >= 2 {
                         let src: Vec<SharedString> = live.iter().rev().map(|(h, _)| h.clone()).collect();
@@ -695,6 +712,7 @@ fn api_body(case: &ApiCase, ctx: &mut CaseCtx) -> PropResult {
         Ok(())
     });
     ctx.label_if(used_clone_from, "clone_from_used");
+    ctx.label_if(unwound, "handles_dropped_while_unwinding");
     ctx.label_if(case.ballast >= 1024, "more_than_1024_live_contents");
     ctx.nontrivial_if(used_clone_from || case.ballast >= 1024 || case.ops.len() >= 4);
     match res {
@@ -721,6 +739,7 @@ fn api_strategy() -> BoxedStrategy<ApiCase> {
         1 => (any::<u8>(), any::<u8>()).prop_map(|(a, b)| ApiOp::Assign(a, b)),
         3 => any::<u8>().prop_map(ApiOp::Drop),
         1 => Just(ApiOp::VecCloneFrom),
+        1 => any::<u8>().prop_map(ApiOp::DropWhileUnwinding),
     ];
     (proptest::collection::vec(op, 0..14), prop_oneof![6 => Just(0u16), 2 => 1u16..64, 1 => 1000u16..2600])
         .prop_map(|(ops, ballast)| ApiCase { ops, ballast })
@@ -801,6 +820,7 @@ pub fn run(ctx: &Ctx) -> PropertyReport {
         rbx_types::verif_set_yield_hook(None);
         let mut r = ctx.run_prop("api-sequences", cases, api_strategy, api_body);
         r.floor("clone_from_used", cases / 20);
+        r.floor("handles_dropped_while_unwinding", cases / 20);
         r.floor("more_than_1024_live_contents", cases / 50);
         rep.push(r);
     }
